@@ -102,6 +102,7 @@ structure State (R : Type) where
   -- ghost
   now : Nat
   execAt : Nat → Option Nat
+  /-- `decAt a k`: when `a` decremented its trigger number `k` -/
   decAt : Nat → Nat → Option Nat
   zeroAt : Nat → Option Nat
   startAt : Nat → Option Nat
@@ -172,14 +173,14 @@ def step {R : Type} (cfg : Cfg) (g : Dag) (f : Nat → List R → Option R) (s :
           if s.closed = false then
             some { s with phase := upd (upd s.phase a (.sending k)) t .queued
                           pending := upd s.pending t 0
-                          decAt := upd2 s.decAt a t (some s.now)
+                          decAt := upd2 s.decAt a k (some s.now)
                           zeroAt := upd s.zeroAt t (some s.now)
                           now := s.now + 1 }
           else none
         else
           some { s with phase := upd s.phase a (.trig (k + 1))
                         pending := upd s.pending t (s.pending t - 1)
-                        decAt := upd2 s.decAt a t (some s.now)
+                        decAt := upd2 s.decAt a k (some s.now)
                         now := s.now + 1 }
       else none
     | _ => none
@@ -228,6 +229,36 @@ def firstBad {R : Type} (cfg : Cfg) (g : Dag) (f : Nat → List R → Option R) 
 def State.final {R : Type} (g : Dag) (s : State R) : Prop :=
   s.closed = true ∧ ∀ a, a ≤ g.n → s.phase a = .done
 
+/-! ### phases -/
+
+/-- `exec` has happened -/
+def Phase.executed : Phase → Bool
+  | .finished => true
+  | .trig _ => true
+  | .sending _ => true
+  | .done => true
+  | _ => false
+
+/-- holds a token of the semaphore -/
+def Phase.holds : Phase → Bool
+  | .running true => true
+  | .finished => true
+  | _ => false
+
+/-- has decremented its trigger number `i` -/
+def Phase.passed : Phase → Nat → Bool
+  | .trig k, i => decide (i < k)
+  | .sending k, i => decide (i ≤ k)
+  | .done, _ => true
+  | _, _ => false
+
+/-- handled by the dispatcher loop itself (`genericHandle(item, root, queue, nil, …)`) -/
+def Phase.inlinePh : Phase → Bool
+  | .running false => true
+  | .trig _ => true
+  | .sending _ => true
+  | _ => false
+
 /-- `final`, decidable form (used by the trace driver) -/
 def State.finalB {R : Type} (g : Dag) (s : State R) : Bool :=
   s.closed && (List.range (g.n + 1)).all (fun a => decide (s.phase a = .done))
@@ -247,15 +278,26 @@ def eval {R : Type} (g : Dag) (f : Nat → List R → Option R) (a : Nat) : Opti
 
 def allUpTo (n : Nat) (p : Nat → Bool) : Bool := (List.range (n + 1)).all p
 
-def nodupB : List Nat → Bool
-  | [] => true
-  | x :: xs => !xs.contains x && nodupB xs
+/-- sum of `f 0 … f (k-1)` -/
+def sumUpTo (f : Nat → Nat) : Nat → Nat
+  | 0 => 0
+  | k + 1 => sumUpTo f k + f k
 
+/-- number of trigger entries `(d, i)`, `d ≤ n`, `(g.trig d)[i] = t`, that `P d i` has not
+passed yet (`P d i` = "`d` has decremented its trigger number `i`") -/
+def openEdges (g : Dag) (P : Nat → Nat → Bool) (t : Nat) : Nat :=
+  sumUpTo (fun d => sumUpTo (fun i => if (g.trig d)[i]? = some t ∧ P d i = false then 1 else 0)
+    (g.trig d).length) (g.n + 1)
+
+/-- The graph may have parallel edges (an analyzer may list a requirement twice, and does:
+ST1023 requires `tokenfile` twice): `deps` and `trig` are lists with repetitions and
+`pending` counts entries, not distinct actions. -/
 def Dag.wfB (g : Dag) : Bool :=
   allUpTo g.n fun a =>
-    (g.deps a).all (fun d => decide (d < a)) && nodupB (g.deps a) && nodupB (g.trig a) &&
+    (g.deps a).all (fun d => decide (d < a)) &&
     (g.trig a).all (fun t => decide (t ≤ g.n) && (g.deps t).contains a) &&
     (g.deps a).all (fun d => (g.trig d).contains a) &&
+    decide ((g.deps a).length = openEdges g (fun _ _ => false) a) &&
     (decide (a = g.n) || !(g.trig a).isEmpty)
 
 end Verif.C06
